@@ -409,6 +409,15 @@ class Fn:
                     return f("(Py.pymod %s %s)" % (a.s, b.s), a.lo, a.hi)
                 return f("(Py.pymod %s %s)" % (a.s, b.s), 0, c - 1)
             return f("(Py.pymod %s %s)" % (a.s, b.s), c + 1, 0)
+        if isinstance(op, ast.Pow):
+            if b.lo is None or b.lo < 0:
+                self.err(node, "cannot show that the exponent %s is >= 0 (a negative exponent gives a float)" % b.s)
+            lo = hi = None
+            if a.lo is not None and a.lo >= 0:
+                lo = a.lo ** b.lo if a.lo >= 1 else 0
+                if a.hi is not None and b.hi is not None and b.hi <= 4096:
+                    hi = a.hi ** b.hi
+            return f("(Py.pow %s %s)" % (a.s, b.s), lo, hi)
         if isinstance(op, (ast.LShift, ast.RShift)):
             if b.lo is None or b.lo < 0:
                 self.err(node, "cannot show that the shift count %s is >= 0 (ValueError cannot be excluded)" % b.s)
@@ -883,7 +892,7 @@ class Fn:
                     tgt(n.target)
                 elif isinstance(n, ast.For):
                     tgt(n.target)
-                elif isinstance(n, (ast.NamedExpr, ast.With, ast.Try, ast.While, ast.FunctionDef, ast.ClassDef,
+                elif isinstance(n, (ast.NamedExpr, ast.With, ast.Try, ast.FunctionDef, ast.ClassDef,
                                     ast.Global, ast.Nonlocal, ast.Delete, ast.Import, ast.ImportFrom)):
                     self.err(n, "%s is not in the subset" % type(n).__name__)
         return out
@@ -942,6 +951,8 @@ class Fn:
             return self.if_stmt(s, rest, env, k)
         if isinstance(s, ast.For):
             return self.for_stmt(s, rest, env, k)
+        if isinstance(s, ast.While):
+            return self.while_stmt(s, rest, env, k)
         self.err(s, "statement %s is not in the subset" % type(s).__name__)
 
     # ownership: the keys of env["#own"].ltlen are the local variables that hold a mutable object (list / bytearray)
@@ -1330,6 +1341,89 @@ class Fn:
         else:
             text = pre + "let %s : %s := List.foldl (%s) %s %s\n" % (st_out, ty, lam, init, iters)
         text += self.unpack_tuple(st_out, state, env2)
+        return text + self.block(rest, env2, k)
+
+    def while_stmt(self, s, rest, env, k):
+        """`while c: body` -> Py.whileLoop with the fuel expression of the SRC entry (key `fuel`, a Python expression over
+        the variables live at the loop, evaluated once before the loop)"""
+        if s.orelse:
+            self.err(s, "while ... else is not in the subset")
+        for n in ast.walk(s):
+            if isinstance(n, (ast.Break, ast.Continue, ast.Return, ast.Raise)):
+                self.err(n, "%s inside a while loop is not in the subset" % type(n).__name__)
+        if "fuel" not in self.spec:
+            self.err(s, "while loop: the SRC entry declares no `fuel` (an int expression bounding the number of iterations)")
+        if self.loop:
+            self.err(s, "a while loop nested in another loop is not in the subset")
+        if not self.monadic:
+            raise NeedMonad()
+        asg = self.assigned(s.body, env)
+        state = [n for n in asg if n in env]
+        if not state:
+            self.err(s, "while loop assigns no variable that is live before it")
+        try:
+            fuel = self.expr(ast.parse(self.spec["fuel"], mode="eval").body, env)
+        except SyntaxError:
+            self.err(s, "the `fuel` of the SRC entry is not a Python expression")
+        if fuel.t != INT or self.pre:
+            self.err(s, "the `fuel` expression must be a plain int expression")
+        pre = self.flush("")
+        keep = {n for n in state if env[n].t == INT and env[n].lo is not None}
+        while True:
+            snap = (self.fresh, set(self.names), len(self.notes))
+            benv = dict(env)
+            for n in state:
+                v = env[n]
+                whole = self.whole_assigned(s.body, n)
+                benv[n] = V(v.s, v.t, v.lo if n in keep else None, None, None if whole else v.n, (), None, None, v.rec)
+            for kk_, vv in list(benv.items()):
+                dead = vv.ltlen & set(state)
+                if dead and kk_ != "#own":
+                    benv[kk_] = V(vv.s, vv.t, vv.lo, vv.hi, vv.n, vv.ltlen - dead, vv.elo, vv.ehi, vv.rec)
+            ends = []
+            def kk(e2):
+                ends.append(e2)
+                for n in state:
+                    if e2[n].t != env[n].t:
+                        self.err(s, "loop changes the type of %s" % n)
+                return self.tuple_of(state, e2)
+            saved = self.monadic
+            self.loop += 1
+            try:
+                self.monadic = False
+                self.guard += 1
+                try:
+                    c = self.cond(s.test, benv)
+                    body = self.block(list(s.body), benv, kk)
+                except NeedMonad:
+                    self.err(s, "an operation that can raise inside a while loop is not in the subset")
+            finally:
+                self.monadic = saved
+                self.loop -= 1
+                self.guard -= 1
+            bad = {n for n in keep if ends[0][n].lo is None or ends[0][n].lo < env[n].lo}
+            if not bad:
+                break
+            keep -= bad                     # `n >= its entry value` is not preserved by the body: drop it and redo
+            self.fresh, self.names = snap[0], snap[1]
+            del self.notes[snap[2]:]
+        env2 = dict(env)
+        self.set_own(env2, self.own(env) & self.own(ends[0]))
+        for n in asg:
+            if n not in state:
+                env2.pop(n, None)
+        for n in state:
+            env2[n] = benv[n]
+        ty = self.tuple_type(state, env)
+        st_in = self.tmp("st") if len(state) > 1 else env[state[0]].s
+        unpack = self.unpack_tuple(st_in, state, env)
+        st_out = self.tmp("st") if len(state) > 1 else st_in
+        text = pre + "(Py.whileLoop (fun (%s : %s) =>\n%s) (fun (%s : %s) =>\n%s) (Int.toNat %s) %s : R (%s)) >>= fun %s =>\n" % (
+            st_in, ty, indent(unpack + "decide %s" % c), st_in, ty, indent(unpack + body), fuel.s,
+            self.tuple_of(state, env), ty, st_out)
+        text += self.unpack_tuple(st_out, state, env2)
+        self.notes.append("the while loop at line %d runs for at most `%s` iterations (SRC entry); if it has not stopped by "
+                          "then the result is Err.fuel" % (s.lineno, self.spec["fuel"]))
         return text + self.block(rest, env2, k)
 
     @staticmethod
